@@ -11,7 +11,7 @@ Plain == { F(1, 1, <<97>>), F(1, 0, <<226, 130>>), F(0, 1, <<172>>), F(0, 0, <<>
            F(8, 1, <<3, 232, 111>>), F(3, 1, <<>>), F(1, 1, <<255>>), F(0, 1, <<1>>), [F(2, 1, <<>>) EXCEPT !.ann = "huge"], [F(1, 1, <<97>>) EXCEPT !.mask = TRUE],
            F(9, 0, <<>>), F(8, 1, <<3>>), [F(1, 1, <<98>>) EXCEPT !.rsv2 = 1],
            F(1, 1, <<226, 65, 66>>), F(1, 0, <<226, 65, 66>>),
-           [F(2, 1, <<>>) EXCEPT !.pl = PVBlob(20000, 1)], F(1, 1, <<97, 240, 159, 65>>), F(1, 1, <<97, 226, 130, 172, 98>>) }
+           [F(2, 1, <<>>) EXCEPT !.pl = PVBlob(20000, 1)], [F(2, 1, <<>>) EXCEPT !.pl = PVBlob(66000, 2)], F(1, 1, <<97, 240, 159, 65>>), F(1, 1, <<97, 226, 130, 172, 98>>) }
 Comp == { Z(F(1, 1, <<104, 105, 104, 105, 104, 105>>)), Z(F(2, 0, <<1, 2, 3>>)), F(0, 1, <<>>), F(1, 1, <<97>>), F(9, 1, <<>>), [F(1, 1, <<3, 0>>) EXCEPT !.rsv1 = 1] }
 Https == { [t |-> "http", v |-> "ok"], [t |-> "http", v |-> "rej"], [t |-> "http", v |-> "big"], [t |-> "http", v |-> "bigunterm"] }
 HttpZ == [t |-> "http", v |-> "ok", ext |-> "permessage-deflate"]
